@@ -496,11 +496,15 @@ TEMPLATES = [
         ("S", FIX_NONE, [("A", 0)]), ("S", FIX_NONE, [("B", 1)]),
         ("A", 2, ["a"]), ("A", FIX_P, ["b"]),
         ("B", 3, ["b"]), ("B", FIX_P, ["a"])]),
+    ("lexical_ambiguity", [  # one word, several entries with the same head and body but different features
+        ("S", FIX_NONE, [("A", 0), ("B", 1)]),
+        ("A", FIX_S, ["a"]), ("A", FIX_P, ["a"]),
+        ("B", 2, ["b"]), ("B", FIX_P, ["a"]), ("B", 3, ["b"])]),
 ]
 NTPL = len(TEMPLATES)
 # a second query on the SAME grammar object, after the symbolic word: contains() must not depend on
 # earlier queries (the chart states start from the productions' own feature structures)
-PROBES = [["b", "b"], ["b"], ["a", "b"], ["b", "b"], ["a", "b"], ["a"]]
+PROBES = [["b", "b"], ["b"], ["a", "b"], ["b", "b"], ["a", "b"], ["a"], ["a", "a"]]
 ANN_TEXT = ["", "[N=s]", "[N=p]", "[N=?x]"]
 I4 = Tuple[int, int, int, int]
 
@@ -632,13 +636,14 @@ def _fcfg_oracle(args, obs):
 
 # word lengths judged per template: the lengths at which the template's feature-free language lives
 # (quick: exactly those; thorough: everything up to them)
-WLEN_Q = [(2,), (1,), (1, 2), (2,), (2,), (1,)]
-WMAX_T = [2, 1, 2, 2, 3, 1]
+WLEN_Q = [(2,), (1,), (1, 2), (2,), (2,), (1,), (2,)]
+WMAX_T = [2, 1, 2, 2, 3, 1, 2]
 ANN3 = (0, 1, 3)          # none, N=s, N=?x
 
 
 def fcfg_bound(tpl, ann, w, wlen, route, big):
-    """quick: every template built by from_text (route 0); the four symbolic annotations over {none, s, ?x} (epsilon template: the two lexical slots
+    """quick: every template built by from_text (route 0) except lexical_ambiguity, which is built from
+    FeatureProduction objects (route 1: from_text would drop its same-shaped entries); the four symbolic annotations over {none, s, ?x} (epsilon template: the two lexical slots
     none); words of the template's characteristic lengths.
     thorough: route 0 annotations over {none, s, p, ?x}; route 1 over {none, s, ?x}; route 2 ('|' syntax)
     for the ambiguity and alternatives templates; all words up to the characteristic length."""
@@ -661,7 +666,7 @@ def fcfg_bound(tpl, ann, w, wlen, route, big):
         return False
     if not small_ann:
         return False
-    if route != 0:
+    if (route == 0) == (tpl == 6) or route == 2:
         return False
     if tpl == 2 and not (ann[2] == 0 and ann[3] == 0):
         return False
@@ -816,7 +821,7 @@ def _shards_str(tier):
 
 def _shards_fcfg(tier):
     if tier == "quick":
-        return [dict(tpl=t, route=0, ann0=x, ann1=y) for t in range(NTPL) for x in ANN3 for y in ANN3]
+        return [dict(tpl=t, route=(1 if t == 6 else 0), ann0=x, ann1=y) for t in range(NTPL) for x in ANN3 for y in ANN3]
     out = [dict(tpl=t, route=0, ann0=x, ann1=y) for t in range(NTPL) for x in range(4) for y in range(4)]
     out += [dict(tpl=t, route=1, ann0=x, ann1=y) for t in range(NTPL) for x in ANN3 for y in ANN3]
     out += [dict(tpl=t, route=2, ann0=x, ann1=y) for t in (3, 5) for x in range(4) for y in range(4)]
